@@ -13,6 +13,7 @@ import LyModel.XPath.Drv
 import LyModel.YangStr.Drv
 import LyModel.LyHt.Drv
 import LyModel.Sib.Drv
+import LyModel.Diff.Drv
 /-! Dispatch table of the line-protocol driver: one handler per component. -/
 namespace LyModel.Drv
 
@@ -33,6 +34,7 @@ def dispatch (comp op : String) (args : List String) : String :=
   | "yangstr" => YangStr.Drv.handle op args
   | "ht" => LyHt.Drv.handle op args
   | "sib" => Sib.Drv.handle op args
+  | "diff" => Diff.Drv.handle op args
   | _ => "err NoSuchComponent"
 
 end LyModel.Drv
